@@ -183,6 +183,14 @@ class C17:
                     ctx.bad("R17.1", self.file, "extend_dim_width", f"{show(e.term)[:80]}", "np.linspace without an integer count", e.lineno)
         # R17.6: placement, evaluated on the extracted formula for small counts
         re = [e for e in s.calls if e.term[1][0] == "attr" and e.term[1][2] == "reindex" and e.term[1][1] == arr]
+        deleg = [e for e in s.calls if e.term[1] == ("global", f"{AOPS}:extend_dim", "func")]
+        if len(re) != 1 and deleg:
+            ctx.bad("R17.1", self.file, "extend_dim_width", f"{show(deleg[0].term)[:80]}",
+                    "the width-based extension is delegated to the range-based extend_dim, which generates the new coordinates with "
+                    "np.arange over float bounds: whether the end point of such a range is included depends on rounding, so the result "
+                    "has width or width + 1 samples (steps 0.1, 0.01, 1/3, 0.7) -- the count must come from an integer generator",
+                    deleg[0].lineno, witness={"step": 0.1, "observed": "width + 1 samples"})
+            return
         if len(re) != 1:
             ctx.undec("R17.6", site, "array.reindex(...) not found")
             return
@@ -501,7 +509,16 @@ def check_dim_step(ctx: Ctx):
         good = b.get(es.params[0]) == ("attr", coord, "data") and all(b.get(k) == ("param", k) for k in ("rtol", "atol", "check_tolerance")) \
             and ("cmp", "notin", key, attrs) in conjuncts(r_est[0].live)
     rej = [r for r in s.raises if ("not", ("param", "estimate_step")) in conjuncts(r.live) or NOT(("param", "estimate_step")) in conjuncts(r.live)]
-    if good and rej:
+    # a recorded step is returned unconditionally: nothing may be raised, and nothing else required, while the attribute is there
+    early = [r for r in s.raises if ("cmp", "notin", key, attrs) not in conjuncts(r.live)]
+    extra = [c for r in r_attr for c in conjuncts(r.live) if c != has]
+    if good and (early or extra):
+        what = early[0] if early else r_attr[0]
+        ctx.bad("R17.7", file, "get_dim_step", f"{'raise' if early else 'return'} under {show(what.live)[:70]}",
+                f"get_dim_step {'raises' if early else 'returns the recorded step only'} under `{show(what.live)[:90]}` although the axis records its "
+                f"step: an axis of one sample with a declared step (create_range_dim produces them) can no longer be extended or adjusted",
+                what.lineno)
+    elif good and rej:
         ctx.ok("R17.7", site, "step = the recorded attribute when present, else the estimate over the axis data (tolerances forwarded); no estimate -> error")
     else:
         ctx.bad("R17.7", file, "get_dim_step", "step from attribute or estimate",
